@@ -16,10 +16,13 @@ Correspondence (model <-> /repo), every run:
         count(), count_lines(), remove() (on copies).
   (v)   LRUCache and the cached match vs the LRU model.
 
-Oracle.  The property itself is `code == documented semantics`.  The pinned tree violates it in
-six classes (findings/C14-*.md); a deviation is reported as KNOWN-FINDING only when (a) the model
-predicts exactly that answer and (b) the input lies in one of these classes; anything else is a
-VIOLATION.  Case-insensitive matching: ASCII only (Python's Unicode case folding is external).
+Oracle.  The property itself is `code == documented semantics`.  After the repairs in /repo
+(810a9af, 2f2ca27, 81a3019, 8d610d8) two classes remain open (known_findings.json): a directory
+against a slash-less pattern whose last non-`**` component is made of `*` only (`*/*` matches
+`/d/`), and reversed ranges raising re.error.  A deviation is reported as KNOWN-FINDING only when
+(a) the model predicts exactly that answer and (b) the input lies in one of these classes;
+anything else is a VIOLATION.  Case-insensitive matching: ASCII only (Python's Unicode case
+folding is external).
 """
 from __future__ import annotations
 
@@ -40,30 +43,11 @@ RAND_POOLS = [
     ["a", ".", "*", "**", "/", "[", "]", "!", "(", ")", "|", "{", "}", "$", "+", " ", "\n", "日", "#", "~", "&"],
 ]
 SIG = {
-    "nl": "C14/glob/multiline-dollar-newline",
-    "dir": "C14/glob/dir-without-trailing-slash",
-    "ss": "C14/glob/starstar-partial-component",
-    "neg": "C14/glob/negated-class-slash",
-    "rng": "C14/glob/class-range-spans-slash",
+    "empty": "C14/glob/empty-component-matches-dir-slash",
     "rev": "C14/match/reversed-range-re-error",
-    "prune": "C14/globber/levels-pruning-loses-match",
 }
 NWORK = max(1, min(8, (os.cpu_count() or 2) - 1))
 LEANCHECKER_MODULES = ["FsProofs.C14", "FsProofs.Lemmas.GlobLemmas"]
-
-
-# ----------------------------------------------------------------------------- known findings
-
-
-def load_additions(rep):
-    """findings/known_findings_additions.json holds the entries proposed for known_findings.json;
-    until they are merged the check reads them from there (same format, same matching)."""
-    path = os.path.join(vlib.VERIF, "findings", "known_findings_additions.json")
-    if os.path.exists(path):
-        have = {f["signature"] for f in rep.open_findings}
-        for f in json.load(open(path)):
-            if f.get("property") == rep.prop_id and f["signature"] not in have:
-                rep.open_findings.append(f)
 
 
 # ----------------------------------------------------------------------------- the real code
@@ -261,34 +245,25 @@ class GlobSpecPy:
 
         return go(0, 0)
 
+    def empty_tail(self):
+        """the last component that is not `**` consists of `*` only"""
+        pcs = list(self.pcs)
+        while pcs and pcs[-1] == "**":
+            pcs.pop()
+        return bool(pcs) and all(t[0] == "*" for t in sp_tokens(pcs[-1]))
+
     def dev_class(self, comps, is_dir):
-        """the known deviation class an input belongs to (first that applies), or None"""
-        if any("\n" in c for c in comps):
-            return "nl"
-        if is_dir and not self.dir_only:
-            return "dir"
-        pcs = self.pcs
-        if any(pcs[i] == "**" and any(q != "**" for q in pcs[:i]) for i in range(len(pcs))):
-            return "ss"
+        """the open deviation class an input belongs to, or None"""
+        if is_dir and not self.dir_only and self.empty_tail():
+            return "empty"
         return class_dev([t for ts in self.toks if ts for t in ts])
 
 
 def class_dev(toks, glob=True):
-    """deviation class of the bracket expressions of a pattern: mangled negation before reversed
-    range (both can make re.compile fail) before a range that contains the separator"""
-    found = set()
+    """a bracket expression with a reversed range (re.compile fails)"""
     for t in toks:
-        if t[0] == "[":
-            neg, body = t[1], t[2]
-            if glob and neg and (body[0] == "]" or (body[0] == "-" and len(body) >= 2)):
-                found.add("neg")
-            if any(lo > hi for lo, hi in sp_ranges(body)):
-                found.add("rev")
-            if glob and not neg and any(lo < "/" < hi for lo, hi in sp_ranges(body)):
-                found.add("rng")
-    for k in ("neg", "rev", "rng"):
-        if k in found:
-            return k
+        if t[0] == "[" and any(lo > hi for lo, hi in sp_ranges(t[2])):
+            return "rev"
     return None
 
 
@@ -529,7 +504,7 @@ def w_glob_tables(job):
             if impl.startswith("err"):
                 cls = class_dev([t for ts in sp.toks if ts for t in ts])
                 name = impl[4:]
-                if name == "reError" and cls in ("rev", "neg"):
+                if name == "reError" and cls == "rev":
                     _dev(out, SIG[cls], pattern=p, cs=cs, impl=impl)
                 elif name == "IllegalBackReference" and ".." in sp.pcs:
                     hist["unspecified:pattern-with-dotdot-raises"] = hist.get("unspecified:pattern-with-dotdot-raises", 0) + 1
@@ -705,13 +680,7 @@ def w_globber(job):
             if got != want:
                 lost = [e for e in want if e not in got]
                 extra = [e for e in got if e not in want]
-                cls_ok = not extra and all(
-                    "\n" in path or class_dev([t for ts in sp.toks if ts for t in ts]) == "rng" for (path, _d) in lost
-                )
-                if cls_ok:
-                    _dev(out, SIG["prune"], lost=lost[:3], **case)
-                else:
-                    _mm(out, fn="Globber vs filter over complete walk", lost=lost[:4], extra=extra[:4], property_fails=True, **case)
+                _mm(out, fn="Globber vs filter over complete walk", lost=lost[:4], extra=extra[:4], property_fails=True, **case)
                 continue
             # vs the documented semantics
             if not sp.unspecified:
@@ -856,18 +825,25 @@ def matcher_check(rep, drv, rng, n):
 # ----------------------------------------------------------------------------- witnesses of the Lean counterexample theorems
 
 WITNESSES = [
-    # (theorem, pattern, resource, code answer, documented answer, finding)
-    ("star_omits_directories", "*", "d/", False, True, "dir"),
-    ("two_level_matches_one_level_dir", "*/*", "d/", True, False, "dir"),
-    ("dollar_matches_before_newline", "a", "a\nb", True, False, "nl"),
-    ("starstar_partial_component", "a/**/b", "ax/b", True, False, "ss"),
-    ("negated_class_loses_bracket", "[!]a]", "b", False, True, "neg"),
-    ("negated_class_dash_becomes_range", "[!-a]", "B", False, True, "neg"),
-    ("class_range_crosses_separator", "a[+-9]b", "a/b", True, False, "rng"),
+    # (theorem, pattern, resource, code answer, documented answer, open finding or None)
+    ("two_level_matches_one_level_dir", "*/*", "d/", True, False, "empty"),
+    ("star_matches_directories_repaired", "*", "d/", True, True, None),
+    ("dollar_newline_repaired", "a", "a\nb", False, False, None),
+    ("starstar_whole_levels_repaired", "a/**/b", "ax/b", False, False, None),
+    ("starstar_whole_levels_repaired", "a/**/b", "a/x/y/b", True, True, None),
+    ("starstar_whole_levels_repaired", "a/**/b", "a/b", True, True, None),
+    ("negated_class_repaired", "[!-a]", "B", True, True, None),
+    ("negated_class_repaired", "[!]a]", "b", True, True, None),
+    ("negated_class_repaired", "[!]a]", "]", False, False, None),
+    ("negated_class_repaired", "a[!]|.*|]", "anything/at/all", False, False, None),
+    ("class_range_separator_repaired", "a[+-9]b", "a/b", False, False, None),
+    ("levels_newline_repaired", "a", "a\n/b", False, False, None),
 ]
 
 
 def witness_check(rep):
+    """the concrete theorems of FsProofs/C14.lean replayed on the real code: the open
+    counterexample must still reproduce (KNOWN-FINDING), the `_repaired` ones must stay repaired"""
     import fs.glob as G
 
     for name, pat, res, code_want, spec_want, cls in WITNESSES:
@@ -880,20 +856,18 @@ def witness_check(rep):
             rep.violation(case, "witness %s: the Python statement of the documented semantics answers %s" % (name, spec),
                           found_input=False, signature="C14/witness/spec")
         elif code != code_want:
-            rep.violation(case, "counterexample theorem %s no longer describes the code: glob.match(%r, %r) = %s" % (name, pat, "/" + res, code),
-                          found_input=False, signature="C14/witness/" + name)
-        else:
+            rep.violation(case, "theorem %s no longer describes the code: glob.match(%r, %r) = %s (documented: %s)"
+                          % (name, pat, "/" + res, code, spec), found_input=code != spec, signature="C14/witness/" + name)
+        elif cls is not None:
             rep.violation(case, "glob.match(%r, %r) = %s, documented semantics %s (theorem %s)" % (pat, "/" + res, code, spec, name),
                           found_input=True, signature=SIG[cls])
-    # the reversed range: raises instead of answering
-    for fn, mod in (("glob", G),):
-        try:
-            mod.match("[b-a]", "x")
-            rep.violation({"kind": "witness", "theorem": "Fs.C14.reversed_range_raises"}, "glob.match('[b-a]', 'x') no longer raises",
-                          found_input=False, signature="C14/witness/reversed_range_raises")
-        except re.error:
-            rep.violation({"kind": "witness", "pattern": "[b-a]", "path": "x"}, "glob.match('[b-a]', 'x') raises re.error",
-                          found_input=True, signature=SIG["rev"])
+    try:
+        G.match("[b-a]", "x")
+        rep.violation({"kind": "witness", "theorem": "Fs.C14.reversed_range_raises"}, "glob.match('[b-a]', 'x') no longer raises",
+                      found_input=False, signature="C14/witness/reversed_range_raises")
+    except re.error:
+        rep.violation({"kind": "witness", "pattern": "[b-a]", "path": "x"}, "glob.match('[b-a]', 'x') raises re.error",
+                      found_input=True, signature=SIG["rev"])
 
 
 # ----------------------------------------------------------------------------- run
@@ -961,7 +935,6 @@ def report_mismatch(rep, phase, mm):
 
 
 def run(rep, tier, seed, deep=False):
-    load_additions(rep)
     drv = vlib.Driver()
     rng = vlib.rng_for(seed, "c14")
     quick = tier == "quick"
@@ -983,6 +956,7 @@ def run(rep, tier, seed, deep=False):
         "fs.path.iteratepath (used to split the pattern) is the C12 model",
         "lone surrogates are outside the model",
         "patterns whose documented meaning is open (a `**` glued to other text, `.`/`..` components, no component at all) are compared with the model only",
+        "open findings are read from known_findings.json only (vlib.Report.match_known)",
     ]
     pool = multiprocessing.get_context("fork").Pool(NWORK)
     try:
@@ -1072,7 +1046,6 @@ def run(rep, tier, seed, deep=False):
 
 
 def replay(rep, case):
-    load_additions(rep)
     c = case["case"]
     kind = c.get("kind")
     import fs.glob as G
